@@ -73,6 +73,37 @@ theorem accept_vcJwtK (E : Env) (issuer : String) (j : Jws) (vs : List Verified)
     have := hk (by simpa using hkid)
     simpa using this
 
+/-- ExtractProtectedHeaders never hands out the headers of one signature among several, and what it hands out for a token ParseJWT accepts
+    are the protected headers of the very signature that is verified (did:x509: the `x5c` the resolver reads is covered by that signature) -/
+theorem xph_single_signature (e : Bool) (j : Jws) (s : Sig) (h : extractProtectedHeaders e j = .headers (some s)) :
+    e = false ∧ j.parses = true ∧ j.sigs = [s] := by
+  unfold extractProtectedHeaders at h
+  split at h; · cases h
+  next he =>
+  split at h; · cases h
+  next hp =>
+  split at h
+  · next s' hs => injection h with h; injection h with h; subst h; exact ⟨by simpa using he, by simpa using hp, hs⟩
+  · cases h
+
+theorem xph_agrees_with_parseJWT (E : Env) (j : Jws) (vs : List Verified) (h : parseJWT Facts.C17.supportedAlgs E j = .accept vs) :
+    ∃ s, j.sigs = [s] ∧ extractProtectedHeaders false j = .headers (some s) := by
+  obtain ⟨s, v, hs, _⟩ := accept_parseJWT E j vs h
+  have hp : j.parses = true := by
+    unfold parseJWT at h
+    split at h
+    · cases h
+    · next hp => simpa using hp
+  exact ⟨s, hs, by simp [extractProtectedHeaders, hp, hs]⟩
+
+example : extractProtectedHeaders false { parses := true, sigs := [], splitOK := true } = .err ∧
+    extractProtectedHeaders false { parses := false, sigs := [], splitOK := false } = .headers none := by decide
+
+/-- ExtractProtectedHeaders as regenerated: parse errors ignored, `!= 1` signatures an error, the headers of signature 0 -/
+theorem fact_extractProtectedHeaders :
+    Facts.C17.extractProtectedHeadersBody = "{ headers := make(map[string]interface{}) if jwt != \"\" { message, _ := jws.ParseString(jwt) if message != nil { if len(message.Signatures()) != 1 { return nil, ErrorInvalidNumberOfSignatures } var err error headers, err = message.Signatures()[0].ProtectedHeaders().AsMap(context.Background()) if err != nil { return nil, err } } } return headers, nil }" := by
+  rfl
+
 def exEnvJwk : Env where
   resolve := fun k => if k = "did:jwk:abc#0" then some "K" else none
   embeddedKey := fun _ => none
